@@ -26,9 +26,9 @@
    a finite number).
    _partial, because:
      [json_core2] the message types of the table are ordinary or one of: the wrappers, Struct, ListValue,
-                  Value, Empty, Timestamp, Duration (Json/JsonWktValid.v); tables with Any or FieldMask
-                  are outside the proved part (their mappings are modelled and executed against the
-                  implementation on every run; not yet proved);
+                  Value, Empty, Timestamp, Duration, FieldMask (Json/JsonWktValid.v); tables with
+                  google.protobuf.Any are outside the proved part (its mapping is modelled and executed
+                  against the implementation on every run; not yet proved);
      [codec_ok]   the string forms owned by other properties enter as round-trip hypotheses on the codec:
                   base64 (C22) -- proved for the executable codec, Json/JsonB64P.v -- and the Timestamp /
                   Duration strings (C23: parse (format s n) = (s, n) on the range Marshal accepts);
@@ -96,8 +96,8 @@ Print Assumptions C20_rendering_options_irrelevant.
 (* non-vacuity: the example tables pass the checks; messages with scalars of many kinds, NaN /
    infinity / -0 in a list, a map with an int64 boundary value, nested messages with unknown fields,
    an Empty, enums, oneof members, an extension, a Value of every kind, a Struct with nested lists, a
-   ListValue, an Int64Value wrapper, a repeated Value, a Timestamp and a negative sub-second Duration
-   are representable, and their round trips
+   ListValue, an Int64Value wrapper, a repeated Value, a Timestamp, a negative sub-second Duration and
+   a FieldMask are representable, and their round trips
    compute for several option records *)
 Example C20_example_schema_ok :
   json_schema_ok ex_schema_w ex_names_w = true /\ json_core2 ex_schema_w ex_names_w = true.
